@@ -711,8 +711,12 @@ def run_tagpair(ctx, op, kept):
         c1, c2 = compile_all(r1), compile_all(r2)
         if any(isinstance(c, Exception) for c in c1 + c2):
             return
-        m1 = {s for s in kept if any(matches(c, s) for c in c1)}
-        m2 = {s for s in kept if any(matches(c, s) for c in c2)}
+        # "the same examples": the kept (cleaned) ones and the strings as
+        # they were supplied (rexpy pads with \s* when it had to strip)
+        universe = list(kept) + [s for s in op['examples']
+                                 if isinstance(s, str) and s not in kept]
+        m1 = {s for s in universe if any(matches(c, s) for c in c1)}
+        m2 = {s for s in universe if any(matches(c, s) for c in c2)}
         if m1 != m2:
             diff = sorted(m1 ^ m2)
             violation(ctx, op, 'tag-union', '%s/%s' % (
@@ -725,8 +729,8 @@ def run_tagpair(ctx, op, kept):
                       % (len(r1), len(r2), r1, r2))
         else:
             for a, b, x, y in zip(c1, c2, r1, r2):
-                ma = {s for s in kept if matches(a, s)}
-                mb = {s for s in kept if matches(b, s)}
+                ma = {s for s in universe if matches(a, s)}
+                mb = {s for s in universe if matches(b, s)}
                 if ma != mb:
                     violation(ctx, op, 'tag-pairwise', reg,
                               'expression %r and its tagged form %r match '
